@@ -9,6 +9,7 @@ FIXES = [
     ('dcfd9ce', ['C17']), ('aec99ae', ['C05']), ('4e62abb', ['C12']),
     ('b3cd51c', ['C12']), ('13471b1', ['C14']), ('ea14636', ['C13', 'C10']),
     ('75bd50f', ['C10']), ('083f561', ['C10']), ('4f6f188', ['C15']),
+    ('416fe60', ['C18']),
 ]
 
 
